@@ -133,13 +133,21 @@ def ranking(b, head, tail):
         ctr, init, k, sorted(b.where(i) for i in decs))
 
 
-def run(ctx, chk):
+def run_rules(ctx, chk):
     fb = ctx.facts()
     chk.explanation = ('B1: the only loop on the client call paths (in snapshot()) has a ranking variable. B2: no other CFG '
                        'cycle and no call-graph cycle in the closure of ClockBoundClient::now / clockbound_now. B3: every external '
                        'callee of that closure is non-blocking (deny-list of blocking families, libc limited to clock_gettime). '
                        'B4: the in-flight / re-initialising exits serve the cache (C03.G1 re-evaluated).')
     chk.assumptions = ['atomic loads, fences, volatile reads and clock_gettime(2) via the vDSO do not block']
+    from .. import core as _core
+    if isinstance(ctx, _core.FixtureCtx):
+        for b in fb.bodies(common.SHM):
+            if b.name == 'snapshot':
+                for tail, head in b.back_edges():
+                    ok, why = ranking(b, head, tail)
+                    chk.ob('C18.B1', 'loop:%s:ranking' % b.name, ok, b.where(head), why)
+        return
     ws = wrappers_model.load(fb, chk, 'C18.B2')
     entries = [w.body for w in ws.values()]
     closure, edges = closure_of(fb, entries)
@@ -204,7 +212,19 @@ def run(ctx, chk):
     # B4 import
     from . import C03
     sub = type(chk)('C18', LEVEL, chk.tier)
-    C03.run(ctx, sub)
+    C03.run_rules(ctx, sub)
     for o in sub.obs:
         if o['rule'] == 'C03.G1':
             chk.ob('C18.B4', o['key'], o['ok'], o['where'], o['detail'], o['nontrivial'])
+
+
+CONTROLS = [('C18.B1', 'loop:snapshot:ranking')]
+
+
+def run(ctx, chk):
+    """the rules on /repo, then the positive controls: the same rules must fire on fixtures/shm_broken"""
+    import sys
+    from .. import core
+    run_rules(ctx, chk)
+    if not getattr(chk, '_is_control', False) and not isinstance(ctx, core.FixtureCtx) and not chk.suffix:
+        core.run_controls(chk, sys.modules[__name__], 'shm_broken', CONTROLS)
